@@ -56,7 +56,15 @@ impl MultiPattern {
                 .0
                 .atoms
                 .last()
-                .map_or(true, |last| !last.negative)
+                .map_or(true, |last| {
+                    // Appending to the text can change what the previous text means: a
+                    // trailing `$` stops being the postfix marker (`a$` -> `a$b`) and a
+                    // trailing backslash may escape the appended character (`a\` -> `a\ b`),
+                    // in which case the new matches are not a subset of the old ones.
+                    !last.negative
+                        && !matches!(last.kind, AtomKind::Postfix | AtomKind::Exact)
+                        && last.needle_text().chars().next_back() != Some('\\')
+                })
         {
             self.cols[column].1 = Status::Update;
         } else {
